@@ -409,7 +409,7 @@ func notFetchedKey(field string, methods []string, plan string) string {
 	return "field-not-fetched:" + field
 }
 
-func runOne(p *prep, ch *explore.Run, trace bool) (out execOut) {
+func runOne(p *prep, ch *explore.Run, trace, judge bool) (out execOut) {
 	d := p.decl
 	w := world.New(ch, world.Cfg{Snap: p.snap, Chains: map[string]*simeth.Chain{"node1": p.chain}})
 	w.V.TraceOn = trace
@@ -429,7 +429,7 @@ func runOne(p *prep, ch *explore.Run, trace bool) (out execOut) {
 		}
 		task := tasks[0]
 		cols = w.TableCols("t1")
-		tt := w.V.GoNamed("task", func() {
+		func() { // the steps run on the main controlled thread: a strictly sequential execution
 			for s := 0; s < 6; s++ {
 				if w.V.Closing() {
 					return
@@ -449,8 +449,7 @@ func runOne(p *prep, ch *explore.Run, trace bool) (out execOut) {
 					return
 				}
 			}
-		})
-		w.V.Join(tt)
+		}()
 		dump = w.PG.Dump("t1")
 	})
 	out.harness = w.HarnessErr
@@ -474,7 +473,22 @@ func runOne(p *prep, ch *explore.Run, trace bool) (out execOut) {
 		if det == "" {
 			det = out.stepErr
 		}
-		out.finds = append(out.finds, finding{"panic", "panic:" + panicSite(det), "the row builder panicked:\n" + det})
+		key := "panic:" + panicSite(det)
+		if hasPrefixAny(p.names, "trace_") {
+			renamed := true
+			for _, f := range d.Fields {
+				renamed = renamed && !strings.HasPrefix(f.Column, "trace_")
+			}
+			for _, n := range p.names { // automatically added trace_action_idx keeps its name
+				if n == "trace_action_idx" && !declares(d, n) {
+					renamed = false
+				}
+			}
+			if renamed {
+				key = "trace-fields-in-renamed-columns:panic" // trace indexing is recognised by COLUMN name prefix, not by field name
+			}
+		}
+		out.finds = append(out.finds, finding{"panic", key, "the row builder panicked:\n" + det})
 		return out
 	case w.V.Deadlock:
 		out.outcome = "deadlock"
@@ -490,6 +504,10 @@ func runOne(p *prep, ch *explore.Run, trace bool) (out execOut) {
 		return out
 	}
 	out.outcome = "ok"
+	if !judge {
+		out.nrows = len(dump)
+		return out
+	}
 	want := d.Expect(p.chain, "src1", 7, 1, head, nil)
 	out.nrows, out.nwant = len(dump), len(want)
 	out.finds = compare(p, cols, dump, want, out.methods)
@@ -677,12 +695,35 @@ func compare(p *prep, cols []string, dump []simpg.Row, want []world.Row, methods
 		if key == "" {
 			key = fmt.Sprintf("rowcount:%s", kind)
 		} else if strings.HasPrefix(key, "field-not-fetched:") {
-			key = "items-not-fetched:" + kind + ":" + firstField(p, kind)
+			key = "field-not-fetched:" + firstField(p, kind) // the rows of this item kind hang on that field: its source was never planned
 		}
 		add("rowcount", key, fmt.Sprintf("%d rows stored, %d rows in the declared projection (%s indexing)", len(got), len(exp), kind))
 		return finds
 	}
-	// per column: compare the multisets of values
+	// per column: align the rows by their identity columns when those agree, else compare the multisets of values
+	idCols := []int{}
+	for ci, c := range cols {
+		switch c {
+		case "block_num", "tx_idx", "log_idx", "abi_idx", "trace_action_idx":
+			idCols = append(idCols, ci)
+		}
+	}
+	ident := func(r []string) string {
+		var sb strings.Builder
+		for _, ci := range idCols {
+			sb.WriteString(r[ci])
+			sb.WriteByte('|')
+		}
+		return sb.String()
+	}
+	sort.SliceStable(got, func(i, j int) bool { return ident(got[i]) < ident(got[j]) })
+	sort.SliceStable(exp, func(i, j int) bool { return ident(exp[i]) < ident(exp[j]) })
+	aligned := true
+	for i := range got {
+		if ident(got[i]) != ident(exp[i]) || (i > 0 && ident(got[i]) == ident(got[i-1])) {
+			aligned = false
+		}
+	}
 	for ci, c := range cols {
 		var a, b []string
 		for _, r := range got {
@@ -691,8 +732,10 @@ func compare(p *prep, cols []string, dump []simpg.Row, want []world.Row, methods
 		for _, r := range exp {
 			b = append(b, r[ci])
 		}
-		sort.Strings(a)
-		sort.Strings(b)
+		if !aligned {
+			sort.Strings(a)
+			sort.Strings(b)
+		}
 		if strings.Join(a, "\x00") == strings.Join(b, "\x00") {
 			continue
 		}
@@ -711,7 +754,7 @@ func compare(p *prep, cols []string, dump []simpg.Row, want []world.Row, methods
 				where = "topic"
 			}
 			base, arr, _ := splitType(in.T)
-			tclass := base
+			tclass := typeClass(base)
 			if arr {
 				tclass = base + "[]"
 			}
@@ -735,6 +778,28 @@ func compare(p *prep, cols []string, dump []simpg.Row, want []world.Row, methods
 		add("mismatch", "row-association", "every column holds the right multiset of values, but combined into the wrong rows")
 	}
 	return finds
+}
+
+// typeClass coarsens an elementary type for violation keys: uint256, uintN, int256, intN, bytesN, or the type itself.
+func typeClass(base string) string {
+	for _, p := range []string{"uint", "int", "bytes"} {
+		if strings.HasPrefix(base, p) && len(base) > len(p) {
+			if base[len(p):] == "256" {
+				return base
+			}
+			return p + "N"
+		}
+	}
+	return base
+}
+
+func declares(d *world.Decl, field string) bool {
+	for _, f := range d.Fields {
+		if f.Name == field {
+			return true
+		}
+	}
+	return false
 }
 
 func firstField(p *prep, kind string) string {
@@ -782,7 +847,8 @@ func (r *runner) exec(c *fw.Ctx, s spec, replay bool) {
 	n := 0
 	explore.Explore(b, true, func(run *explore.Run) bool {
 		n++
-		out := runOne(p, run, replay)
+		wellFormed := r.judge == nil || r.judge(s)
+		out := runOne(p, run, replay, wellFormed)
 		if out.harness != "" {
 			c.HarnessError("case %s: %s", s, out.harness)
 			return false
@@ -791,7 +857,6 @@ func (r *runner) exec(c *fw.Ctx, s spec, replay bool) {
 			c.HarnessError("HARNESS-NONDETERMINISM case %s: %s", s, out.diverged)
 			return false
 		}
-		wellFormed := r.judge == nil || r.judge(s)
 		if !wellFormed {
 			c.Eval(false)
 			c.Outcome("illformed:" + out.outcome)
@@ -807,6 +872,12 @@ func (r *runner) exec(c *fw.Ctx, s spec, replay bool) {
 			c.Outcome("ok:" + p.decl.Kind() + ":plan=" + p.plan)
 		} else {
 			c.Outcome("VIOLATION:" + out.finds[0].Class)
+		}
+		for i, in := range s.Inputs {
+			if in.Ix && in.Sel && unselectedIndexedBefore(s, i) {
+				c.Count("cases_with_unselected_indexed_input_before_a_selected_indexed_one", 1)
+				break
+			}
 		}
 		c.Count("rows_compared", int64(out.nwant))
 		c.Count("cells_compared", int64(out.cells))
